@@ -255,6 +255,29 @@ def dc3(ctx):
     ok = bool(ret) and bool(rej) and bool(store) and \
         cfg2.dominates(_first_cond(cfg2, rej[0].test), cfg2.node_of(ret[0])) and \
         cfg2.dominates(cfg2.node_of(store[0]), cfg2.node_of(ret[0]))
+    # the flag is written into a private copy: every path to the store passes a statement that
+    # rebinds the dict to a fresh object (the caller's dict - possibly shared between fields, and
+    # visible through Field.metadata of earlier fields - is never written)
+    fresh_ok = False
+    if store:
+        md = store[0].targets[0].value.id
+        fresh = []
+        for s_ in walk(f2):
+            if isinstance(s_, ast.Assign) and len(s_.targets) == 1 and is_name(s_.targets[0], md):
+                v = s_.value
+                if isinstance(v, ast.Dict) or \
+                        (isinstance(v, ast.Call) and (call_name(v) == 'dict' or
+                                                      (isinstance(v.func, ast.Attribute) and v.func.attr == 'copy'))):
+                    fresh.append(cfg2.node_of(s_))
+        fresh = [x for x in fresh if x is not None]
+        st = cfg2.node_of(store[0])
+        fresh_ok = bool(fresh) and st is not None and cfg2.must_pass(cfg2.entry.idx, fresh, st)
+    ctx.check('field/flag-written-to-a-copy', fresh_ok,
+              'field() writes the pytree_node flag into a fresh copy of the metadata mapping on every path',
+              'field() can write the pytree_node flag into the mapping object the caller passed: a '
+              'dict shared by several field() calls carries the flag of the last call into all of '
+              'them (Field.metadata is a live view), so children and metadata fields are '
+              'partitioned by the wrong flags', mod.loc(f2))
     ctx.check('field/flag-stored-and-checked', ok,
               'field() stores the pytree_node flag in the metadata and rejects init=False nodes '
               'before creating the field',
